@@ -229,6 +229,8 @@ pub fn run(out: &mut Out, tier: &str, rng: &mut Rng) {
     let firsts = gen::first_tokens();
     out.comment("schedules: the corpus parsed from several threads at once");
     par_stage(out, "par_langid", par_inputs(), langid, if thorough { 400 } else { 40 });
+    out.comment("non-ASCII look-alikes: one character replaced by one that a Unicode-aware mapping would fold to ASCII");
+    for b in gen::LOOKALIKE_BASES.iter() { for s in gen::lookalikes(b) { parse_ops(out, s.as_bytes()); } }
     out.comment("G2: token sequences");
     for f in firsts.iter() {
         parse_ops(out, f);
